@@ -5,7 +5,7 @@ from __future__ import annotations
 from ..analyses.mode import FLAGS, Esc, Mode, flag_assignments, strip_flags
 from ..report import Cx, Ob, describe, obligation
 from ..rules import CONV, component, where
-from ..terms import NONE, concat_parts, is_const, op, show
+from ..terms import NONE, concat_parts, is_const, op, show, subterms
 
 describe(
     "C08",
@@ -198,6 +198,41 @@ def d2(cx: Cx, ob: Ob) -> None:
 @obligation("C08-D3", "MODE tail shape: None unreachable under strict or passthrough; the echo of the unmodified input is reachable exactly under (not strict, passthrough); success values identical in all modes", floor=40)
 def d3(cx: Cx, ob: Ob) -> None:
     check_tails(cx, ob, TARGETS)
+    flags_only_report(cx, ob)
+
+
+def flags_only_report(cx: Cx, ob: Ob) -> None:
+    """`strict` / `passthrough` choose how a failure is REPORTED.  In the conversion functions (and the parsers
+    they call) a flag may be tested, and handed on under its own name; handed on under ANOTHER name
+    (``case_sensitive=strict``) or into a computation it changes what is recognised - then the modes no longer
+    agree on which inputs convert."""
+    from ..terms import callee_name
+
+    ci = cx.model.cls(CONV, ob.id)
+    flags = ("strict", "passthrough")
+    for m in ci.methods.values():
+        if not any(m.param(f) is not None for f in flags):
+            continue
+        s = cx.summary(m, ob.id)
+        seen = set()
+        for t, ev, _ in s.all_terms():
+            for c in subterms(t):
+                if op(c) != "call":
+                    continue
+                for k, v in c[3]:
+                    if k is None or k in flags:
+                        continue
+                    leaked = [f for f in flags if m.param(f) is not None and any(x == ("param", f) for x in subterms(v))]
+                    if leaked and (ev.line, k) not in seen:
+                        seen.add((ev.line, k))
+                        ob.violate(
+                            m.qualname,
+                            where(m, ev.line),
+                            f"{m.name} passes `{leaked[0]}` on as `{k}=` of {callee_name(c) or show(c[1])[:30]}: the flag that only selects how failure is reported now changes what is recognised, so a strict call fails (or succeeds) for inputs on which the default call does the opposite",
+                            witness="parse_curie('Go:0001') returns a reference, parse_curie('Go:0001', strict=True) raises",
+                            detail=f"flag-leak:{leaked[0]}->{k}",
+                        )
+        ob.site(f"{m.where} {m.qualname}", "flags are tested or handed on under their own name only")
 
 
 
